@@ -105,27 +105,35 @@ def run(tier, seed, replay=None):
         opens = [l for l in lines if l["ev"] == "Open"]
         cases = []
         nops = 0
+        sampled = 0
         for (name, t), o in zip(trees, opens):
             if not o.get("opened") or o.get("canon") != "ok":
                 cases.append({"name": name, "nodes": t, "dir": ["d"], "ops": []})   # TLC will reject the Open event
                 continue
             total = srv.unpos(o["total"])
             ops, pts = boundary_ops(o["bounds"], total, tier != "quick")
-            if tier == "quick" and len(ops) > 1200:
-                ops = rng.sample(ops, 1200)
+            cap = 1200 if tier == "quick" else 8000
+            if len(ops) > cap:
+                ops = rng.sample(ops, cap)
+                sampled += 1
             cases.append({"name": name + "-readat", "nodes": t, "dir": ["d"], "ops": ops, "fresh": False})
             sr = seek_read_ops(pts, total, rng, 60 if tier == "quick" else 400)
             cases.append({"name": name + "-seekread", "nodes": t, "dir": ["d"], "ops": sr})
             # the same through OsFs + absolute path, as make-iso opens it
             cases.append({"name": name + "-osfs", "nodes": t, "dir": ["d"], "osfs": True, "ops": sr[:40]})
             nops += len(ops) + len(sr) + 40
-        srv.run_and_validate(ctx, cases, rep, module=mod, cfg=cfg, max_rejections=20)
+        B = 36      # cases per batch: bounds the size of one script / one trace
+        for b in range(0, len(cases), B):
+            srv.run_and_validate(ctx, cases[b:b + B], rep, module=mod, cfg=cfg, max_rejections=20)
+            if len(rep.violations) >= 20:
+                break
         rep.cov["rule"] = ("trees of <=4 files with boundary sizes; every ReadAt(off, n) with off and off+n in structural "
-                           "boundaries +-1 (from the image itself), plus seeded Seek/Read sequences; distinct_nontrivial = "
+                           "boundaries +-1 (from the image itself; at most 1200 / 8000 per tree, sampled beyond that), plus seeded Seek/Read sequences; distinct_nontrivial = "
                            "accepted cases (tree x op list)")
         rep.cov["distinct_nontrivial"] = rep.cov["traces_validated_against_impl"]
         rep.cov["operations"] = nops
-        rep.cov["exhaustive"] = tier != "quick"
+        rep.cov["exhaustive"] = sampled == 0
+        rep.cov["trees_with_sampled_readat_pairs"] = sampled
         rep.cov["samples"] = [{"tree": cases[1]["name"], "ops": cases[1]["ops"][:5]}] if len(cases) > 1 else []
         rep.assumptions += ["canonical image = one sequential Read with a 1 MiB buffer on a separate instance"]
     return rep.finish()
